@@ -352,6 +352,8 @@ class PybindWrapper:
             variable_value = variable.name
         else:
             variable_value = variable.default
+            # The initialiser is an expression, not a name inside `namespace`.
+            namespace = ""
 
         return '{prefix}{module_var}.attr("{variable_name}") = {namespace}{variable_value};'.format(
             prefix=prefix,
